@@ -123,6 +123,9 @@ def norm_pickles(pickles, ast_draws, comp_draws):
     return walk(pickles)
 
 
+ERR_CAP = 40
+
+
 def err_snapshot(e):
     loc = getattr(e, "location", None)
     return [type(e).__name__, str(e), dict(loc) if isinstance(loc, dict) else repr(loc)]
@@ -383,7 +386,12 @@ def run_parse(ctx, parser, matcher, text, first, src, path=None, modes=None):
         kind = "doc" if isinstance(res, dict) else "tokens" if isinstance(res, str) else "other"
         out = res
     except CompositeParserException as e:
-        kind, out = "composite", [err_snapshot(x) for x in e.errors]
+        # the parser gives up after the 11th error: a much longer list (a change that lets error lists grow with the
+        # history) is recorded by its head and its length, so that comparing it stays cheap
+        errs = list(e.errors)
+        kind, out = "composite", [err_snapshot(x) for x in errs[:ERR_CAP]]
+        if len(errs) > ERR_CAP:
+            out.append(["TooManyErrors", "%d errors in one CompositeParserException" % len(errs), {"line": 0, "column": 0}])
     except ParserError as e:
         kind, out = "single", err_snapshot(e)
     except (SimCancelled, SimKilled):
@@ -410,6 +418,8 @@ def run_compile(ctx, compiler, prec, uri, attach):
         doc["uri"] = uri
         prec["snap"] = copy.deepcopy(doc)
         arg = doc
+    elif attach == "json":  # the document as it arrives from another process (NDJSON message): equal value, none of the parser's objects
+        arg = json.loads(json.dumps({**doc, "uri": uri}))
     else:  # stream style: shallow copy with uri
         arg = {**doc, "uri": uri}
     before = copy.deepcopy(arg)
